@@ -65,7 +65,8 @@ MANIFEST = {
             'independent resolver of the documented URL rules expects '
             '(content, link identity, move semantics); task states and '
             'forwarding are compared with the expected outcome per task.'
-            "  Second session: contract on the real complete_url: the caller's context (strings or ru.Url objects, as Pilot.stage_in uses) is unchanged by a call and the same question gets the same answer twice.",
+            "  Second session: contract on the real complete_url: the caller's context (strings or ru.Url objects, as Pilot.stage_in uses) is unchanged by a call and the same question gets the same answer twice."
+            "  Third session: pilot level - Pilot.stage_in / Pilot.stage_out (default and explicit directives, dict and list forms) of 1-3 pilots of one manager through the manager's real stager; the data must be at the place the call returns, with the content of THAT pilot.",
     'note': 'only the local staging backend exists offline (no SAGA); the '
             'driver replaces the proxy bridge and the executor; sampled, not '
             'enumerated.'}
